@@ -74,6 +74,19 @@ Theorem C14_rule_in_library : forall L e a,
 Proof. exact in_library_check_spec. Qed.
 Print Assumptions C14_rule_in_library.
 
+(* The rule consults the HEADER of the schema being checked and nothing else: the environment (which libraries
+   and versions are released, what the cache holds), the id-range data and the repairs play no role -- a foreign
+   name is foreign even when it is the name of another released library. *)
+Theorem C14_rule_in_library_header_only : forall fx1 fx2 E1 E2 I1 I2 L e a,
+  run_validator fx1 E1 I1 L V_in_library_check e a = run_validator fx2 E2 I2 L V_in_library_check e a.
+Proof. exact (fun _ _ _ _ _ _ _ _ _ => eq_refl). Qed.
+Print Assumptions C14_rule_in_library_header_only.
+
+Theorem C14_rule_in_library_same_header : forall L1 L2 e a,
+  l_library L1 = l_library L2 -> in_library_check L1 e a = in_library_check L2 e a.
+Proof. exact in_library_depends_on_header_only. Qed.
+Print Assumptions C14_rule_in_library_same_header.
+
 Theorem C14_rule_conversion_factor : forall L e a,
   exists ks, conversion_factor L e a = Ok ks /\
   (In K_SCHEMA_CONVERSION_FACTOR_NOT_POSITIVE ks <->
